@@ -239,6 +239,22 @@ def make_api(mp_func=None):
                 for dtype_ in dtypes:
                     results.append(impl_(dtype_))
 
+            # list results of the per-dtype implementations may differ
+            # in length (e.g. the float16 size cap): pad with zeros so
+            # that selecting between them does not truncate the longer
+            # ones to the shortest
+            def pad_lists(lsts):
+                lsts = list(lsts)
+                if lsts and all(isinstance(r_, list) for r_ in lsts):
+                    n_ = max(len(r_) for r_ in lsts)
+                    lsts = [r_ + [ctx.constant(0, largest)] * (n_ - len(r_)) for r_ in lsts]
+                return lsts
+
+            if type(results[0]) is tuple:
+                results = [tuple(c_) for c_ in zip(*[pad_lists(rs_) for rs_ in zip(*results)])]
+            else:
+                results = pad_lists(results)
+
             def fix_result(result):
                 assert type(result) is not tuple
                 if isinstance(result, list):
